@@ -33,7 +33,7 @@ func TestC13(t *testing.T) {
 	rec := ev.New(t, "C13")
 	rec.Rule("rapid-generated programmes for the real lifecycle cell (constructed through an overlay accessor): G in 2..16 goroutines, R rounds; in each round all goroutines are released together from a barrier and each performs one attempt - Transition(current, random next), Transition(wrong expectation, next) or a forced Set - with generated yields. Oracle at every barrier (the only quiescent points): among pure rounds (no Set) exactly one same-expectation attempt succeeds when there is one, every wrong-expectation attempt fails and returns the then-current state; the history grew by exactly the successful attempts of the round, as a multiset of their targets and - for rounds with Sets - in an order in which every successful CAS follows its expected state; Get() equals the last history entry. A sub-case is one round; non-trivial: >= 2 same-expectation attempts raced, or a Set raced a CAS. Distinct = (states, attempts) of the round.")
 	rec.Assume("reported == last recorded is judged at quiescent points only: the CAS and the history insert are two steps, a concurrent reader may see the new state before the history entry")
-	rounds := ev.Pick(60, 300)
+	rounds := ev.Pick(60, 150)
 	ev.RapidCheck(t, 40, 600, func(t *rapid.T) {
 		G := rapid.IntRange(2, 16).Draw(t, "goroutines")
 		seed := rapid.Int64().Draw(t, "seed")
